@@ -284,6 +284,7 @@ def parseKind (s : String) : Option Mimic.Auth.Kind :=
   if s = "native" then some .native
   else if s = "nologin" then some .nologin
   else if s = "custom2" then some .custom2
+  else if s = "trust" then some .trust
   else if s.startsWith "clear:" then
     let body := (s.drop 6).toString
     if body = "" then some (.clear []) else
@@ -405,7 +406,7 @@ def parseCmd : List String → Option Cmd
   | ["close"] => some .stmtClose
   | ["longdata"] => some .longData
   | "fieldlist" :: r => (parsePlan r).map .fieldList
-  | ["changeuser", k] => some (.changeUser (k == "1"))
+  | ["changeuser", k] => if k == "2" then some .changeUserRaised else some (.changeUser (k == "1"))
   | ["unknown"] => some .unknown
   | ["malformed"] => some .malformed
   | _ => none
